@@ -100,6 +100,19 @@ def get_app(map_key, memfile, maxbody):
         rq = app.request
         outs, info = app.verif_outs, app.verif_info
         for op in app.verif_ops:
+            if op[0] == '?':          # the handler catches whatever the access raises and carries on
+                try:
+                    run_op(rq, op[1:], outs, info)
+                except Exception as e:
+                    sc = getattr(e, 'status_code', None)
+                    outs.append(f'e:HTTP{sc}' if sc is not None else f'e:{type(e).__name__}')
+                    info.setdefault('caught', []).append(len(outs) - 1)
+            else:
+                run_op(rq, op, outs, info)
+        return 'ok'
+
+    def run_op(rq, op, outs, info):
+        if True:
             if op == 'B':
                 b = rq.body
                 d = b.read()
@@ -129,7 +142,6 @@ def get_app(map_key, memfile, maxbody):
                 outs.append('j')
             else:
                 raise AssertionError(op)
-        return 'ok'
     app.route('/x', method='POST', callback=handler)
     _apps[key] = app
     return app
